@@ -323,52 +323,61 @@ Definition starts_bracket (s : bytes) : bool :=
    Result: output, rest of the format, remaining arguments, stop (= NOVERB: the
    format loop is left).  An explicit argument index '[' is never produced by
    parseFmtTypes; the model declines it. *)
+(* "Do we have width?" *)
+Definition go_width (f : fst) (s1 : bytes) (args : list garg) : bytes * fst * bytes * list garg :=
+  match s1 with
+  | 42 :: t =>
+      let '(num, ok, args') := int_from_arg args in
+      let f := set_wid f num ok in
+      let f := if num <? 0 then set_zero (set_minus (set_wid f (- num) ok) true) false else f in
+      (if ok then [] else s_badwidth, f, t, args')
+  | _ =>
+      let '(num, ok, r) := parsenum s1 0 false in
+      ([], set_wid f num ok, r, args)
+  end.
+
+(* "Do we have precision?"  (if i+1 < end && format[i] == '.') *)
+Definition go_prec (f : fst) (s2 : bytes) (args : list garg) : res (bytes * fst * bytes * list garg) :=
+  match s2 with
+  | 46 :: ((_ :: _) as t) =>
+      if starts_bracket t then Unmod else
+      match t with
+      | 42 :: t' =>
+          let '(num, ok, args') := int_from_arg args in
+          let '(num, ok) := if num <? 0 then (0, false) else (num, ok) in
+          Ok (if ok then [] else s_badprec, set_prec f num ok, t', args')
+      | _ =>
+          let '(num, ok, r) := parsenum t 0 false in
+          Ok ([], (if ok then set_prec f num true else set_prec f 0 true), r, args)
+      end
+  | _ => Ok ([], f, s2, args)
+  end.
+
+(* the verb: NOVERB / %% / MISSING / printArg *)
+Definition go_verb (out : bytes) (f : fst) (s3 : bytes) (args : list garg)
+  : res (bytes * bytes * list garg * bool) :=
+  if starts_bracket s3 then Unmod else
+  match s3 with
+  | [] => Ok (out ++ s_noverb, [], args, true)
+  | verb :: rest =>
+      if 128 <=? verb then Unmod
+      else if verb =? 37 then Ok (out ++ [37], rest, args, false)
+      else match args with
+           | [] => Ok (out ++ s_pctbang ++ [verb] ++ s_missing, rest, args, false)
+           | a :: args' =>
+               match print_arg f a verb with
+               | Ok o => Ok (out ++ o, rest, args', false)
+               | Err m => Err m | Panic => Panic | Unmod => Unmod
+               end
+           end
+  end.
+
 Definition go_directive (s : bytes) (args : list garg) : res (bytes * bytes * list garg * bool) :=
   let '(f, s1) := go_flags s f0 in
   if starts_bracket s1 then Unmod else
-  let '(out1, f, s2, args) :=
-    match s1 with
-    | 42 :: t =>
-        let '(num, ok, args') := int_from_arg args in
-        let f := set_wid f num ok in
-        let f := if num <? 0 then set_zero (set_minus (set_wid f (- num) ok) true) false else f in
-        (if ok then [] else s_badwidth, f, t, args')
-    | _ =>
-        let '(num, ok, r) := parsenum s1 0 false in
-        ([], set_wid f num ok, r, args)
-    end in
-  let step_prec :=
-    match s2 with
-    | 46 :: ((_ :: _) as t) =>
-        if starts_bracket t then Unmod else
-        match t with
-        | 42 :: t' =>
-            let '(num, ok, args') := int_from_arg args in
-            let '(num, ok) := if num <? 0 then (0, false) else (num, ok) in
-            Ok (if ok then [] else s_badprec, set_prec f num ok, t', args')
-        | _ =>
-            let '(num, ok, r) := parsenum t 0 false in
-            Ok ([], (if ok then set_prec f num true else set_prec f 0 true), r, args)
-        end
-    | _ => Ok ([], f, s2, args)
-    end in
-  match step_prec with
-  | Ok (out2, f, s3, args) =>
-    if starts_bracket s3 then Unmod else
-    match s3 with
-    | [] => Ok (out1 ++ out2 ++ s_noverb, [], args, true)
-    | verb :: rest =>
-        if 128 <=? verb then Unmod
-        else if verb =? 37 then Ok (out1 ++ out2 ++ [37], rest, args, false)
-        else match args with
-             | [] => Ok (out1 ++ out2 ++ s_pctbang ++ [verb] ++ s_missing, rest, args, false)
-             | a :: args' =>
-                 match print_arg f a verb with
-                 | Ok o => Ok (out1 ++ out2 ++ o, rest, args', false)
-                 | Err m => Err m | Panic => Panic | Unmod => Unmod
-                 end
-             end
-    end
+  let '(out1, f, s2, args) := go_width f s1 args in
+  match go_prec f s2 args with
+  | Ok (out2, f, s3, args) => go_verb (out1 ++ out2) f s3 args
   | Err m => Err m | Panic => Panic | Unmod => Unmod
   end.
 
